@@ -293,7 +293,11 @@ Loop:
 	// e.g. /ab+/i becomes /(?i)ab+/.
 	if l.acceptAll(isRegexFlag) {
 		flags := l.newToken(0)
-		t.Value = fmt.Sprintf("(?%s)%s", flags.Value, t.Value)
+		// An empty expression stays empty (and is rejected
+		// by the parser) whatever its flags.
+		if t.Value != "" {
+			t.Value = fmt.Sprintf("(?%s)%s", flags.Value, t.Value)
+		}
 	}
 
 	return t
